@@ -524,6 +524,7 @@ func runC03(h *H) {
 	h.protoRecycle()
 	// messages with fields of defined (named) types
 	h.protoNamedC03()
+	h.ptRetainCases("proto.retain") // call histories: results retained across further calls (ptretain.go)
 }
 
 func bucket(n int) int {
